@@ -35,10 +35,60 @@ ENGINES = [
          kind_free_text='Verus on src/{source,lexer,internal,lib}.rs extracted mechanically by vx/extract.py, both forbid_unsafe configurations'),
 ]
 
+# ---------------------------------------------------------------------------------------------------
+# Kani suites
+
+def _ksrc_read(tier):
+    L = 40 if tier == 'thorough' else 16
+    hs = []
+    for n in range(0, L + 1):
+        for k in (1, 2, 8, 32): hs.append('read_n%d_k%d' % (n, k))
+        if n <= 16:
+            for k in (1, 2, 8): hs.append('read_str_n%d_k%d' % (n, k))
+        if n in (0, 1, 3, 9, 33) and n <= L:
+            for k in (2, 8): hs.append('read_deref_n%d_k%d' % (n, k))
+    return hs
+
+def _ksrc_state(tier):
+    ns = range(0, 13) if tier == 'thorough' else (0, 1, 4, 9)
+    return ['state_n%d' % n for n in ns]
+
+def _ksrc_bump(tier):
+    ns = range(0, 13) if tier == 'thorough' else (0, 3, 7)
+    return ['bump_twin_n%d' % n for n in ns] + ['bump_str'] + ['state_n%d' % n for n in ((0, 4, 9) if tier != 'thorough' else range(0, 13))]
+
+BUMP_ALLOW = {r'bump_twin_n\d+|bump_str': ['Invalid Lexer bump']}
+
+KSRC_STATE = dict(crate='src_proofs', label='K-src lexer state', harnesses=_ksrc_state, configs=[(), ('forbid_unsafe',)],
+                  bounded=lambda tier: 'real (unsafe and forbid_unsafe) slicing code under every wf state of sources of length <= %d; state symbolic, length bounded' % (12 if tier == 'thorough' else 9))
+KSRC_BUMP = dict(crate='src_proofs', label='K-src bump twin', harnesses=_ksrc_bump, configs=[(), ('forbid_unsafe',)],
+                 allow=BUMP_ALLOW, expect=BUMP_ALLOW,
+                 bounded=lambda tier: 'bump over all (start, end, n) incl. overflowing n, sources of length <= %d; a fixed 11-byte str with 1-4 byte chars' % (12 if tier == 'thorough' else 7))
+KSRC_READ = dict(crate='src_proofs', label='K-src Source::read', harnesses=_ksrc_read, configs=[(), ('forbid_unsafe',)],
+                 bounded=lambda tier: 'Source::read on exactly sized buffers of every length 0..=%d, chunk sizes 1/2/8/32, offset fully symbolic over usize (loop-free: complete in offset, bounded in length)' % (40 if tier == 'thorough' else 16))
+
+def _bump_candidates():
+    out = []
+    M = (1 << 64) - 1
+    def le(x): return list(x.to_bytes(8, 'little'))
+    for (N, h) in ((3, 'bump_twin_n3'), (7, 'bump_twin_n7'), (0, 'bump_twin_n0')):
+        for s in range(0, N + 1):
+            for e in range(s, N + 1):
+                for n in (N - e + 1, 100, M - e, M - e + 1, M - 1, M):
+                    if n < 0 or n > M: continue
+                    out.append((h, [[0]] * N + [le(s), le(e), le(n)]))
+    return out
+
+TWINS = {
+    'bump_twin': dict(crate='src_proofs', harnesses=['bump_twin_n3', 'bump_twin_n0', 'bump_twin_n7', 'state_n4'], allow=BUMP_ALLOW,
+                      native_candidates=_bump_candidates),
+}
+
 PLAN = {
     'C14': dict(
         level='proof',
         verus=[('v_src', BOTH)],
+        kani=[KSRC_STATE],
         engine='verus',
         technique='deductive verification (Verus/Z3) of requires/ensures contracts and a representation invariant on the real Lexer code, extracted mechanically each run',
         level_text='Every public operation of Lexer and SpannedIter (new*, span, slice, remainder, morph, clone, bump, next, spanned, deref) is proved, '
@@ -54,6 +104,7 @@ PLAN = {
     'C15': dict(
         level='proof',
         verus=[('v_src', BOTH)],
+        kani=[KSRC_BUMP],
         twins={'Lexer::bump': 'bump_twin'},
         engine='verus',
         technique='deductive verification (Verus/Z3) of the bump contract incl. overflow freedom and a state invariant at the panic point; Kani twin for the concrete input',
